@@ -64,12 +64,16 @@ OpHolds(op, present, vv, aa) ==
       [] op = "suf"  -> present /\ aa # <<>> /\ EndsWith(vv, aa)
       [] op = "sub"  -> present /\ aa # <<>> /\ HasInfix(vv, aa)
 
+\* an attribute selector is existential: SOME attribute designated by the name (under *| several can be: the same local name in different
+\* namespaces or in none) has a value that satisfies the operator; != is the negation of = (no such attribute has the value)
 AttrHolds(d, env, s, i) ==
     LET idx == AttrIdx(d, env, s.ns, s.name, i)
-        present == idx # {}
-        v == IF present THEN d.attrs[i][Min(idx)].v ELSE <<>>
         ins == Insensitive(d, s.name, s.flag)
-    IN OpHolds(s.op, present, IF ins THEN Lower(v) ELSE v, IF ins THEN Lower(s.val) ELSE s.val)
+        V(n) == IF ins THEN Lower(d.attrs[i][n].v) ELSE d.attrs[i][n].v
+        A == IF ins THEN Lower(s.val) ELSE s.val
+    IN IF s.op = "ex" THEN idx # {}
+       ELSE IF s.op = "ne" THEN ~(\E n \in idx : V(n) = A)
+       ELSE \E n \in idx : OpHolds(s.op, TRUE, V(n), A)
 
 IdAttr == <<105,100>>
 ClassAttr == <<99,108,97,115,115>>
